@@ -9,7 +9,7 @@ PROP = dict(
                "nothing - world, push queue, presence queue, adapter calls - and yields exactly one error reply; a publish inside it is "
                "accepted unless a store call fails. Tied to the code by the differential world stream (same requests through the real "
                "Session/Hub/Topic code over an in-memory adapter and through the model, byte-identical outputs).",
-    level_note="Group topics only; the model is hand-written and tied to the code by the differential run, not regenerated. The "
+    level_note="Group and peer-to-peer topics ({pub} to a p2p topic goes through the same handler); the model is hand-written and tied to the code by the differential run, not regenerated. The "
                "sys/me/fnd clauses of the property are outside the model.",
     technique="Lean 4 proof (case analysis of the transcribed handler, BitVec bit lemmas) + differential correspondence of the world model "
               "+ history monitor on the implementation's output",
@@ -17,8 +17,8 @@ PROP = dict(
     theorems=[T + n for n in ["writer_both", "pub_refused_no_effect", "pub_allowed_accepted"]],
     streams=[world.world_stream("C03")],
     seeds=dict(quick=1, thorough=4),
-    rule="random histories of 30-120 requests per case (400 cases quick, 600 thorough per seed, every fourth a clause scenario with random parameters) over 4 users, 7 sessions (two per user, "
-         "one background, one anonymous, one root acting for others) and up to 3 group topics, a third of the cases with one injected "
+    rule="random histories of 30-120 requests per case (420 cases quick, 600 thorough per seed, every third a clause scenario with random parameters) over 4 users, 7 sessions (two per user, "
+         "one background, one anonymous, one root acting for others) up to 3 group topics and the peer-to-peer topics between the users, a third of the cases with one injected "
          "store failure per request, a third with crash points and restarts; non-trivial = every request line",
     assumptions=world.WORLD_ASSUMPTIONS,
     trusted=world.WORLD_TRUSTED,
